@@ -305,13 +305,20 @@ def run(ctx):
             ctx.gen(name, fn())
         except Exception as e:  # noqa: BLE001
             ctx.broken("translator", name, repr(e))
-    proved = ctx.prove("C11")
+    import threading
+    res = {}
+    th = threading.Thread(target=lambda: res.__setitem__("proved", ctx.prove("C11")))
+    th.start()
+    n_nets, n_numba = (26, 4) if ctx.quick else (300, 80)
+    try:
+        explore(ctx, n_nets, n_numba)
+    finally:
+        th.join()
+    proved = res.get("proved", False)
     try:
         mode_correspondence(ctx)
     except Exception as e:  # noqa: BLE001
         ctx.broken("correspondence", "mode table correspondence could not run", repr(e))
-    n_nets, n_numba = (26, 4) if ctx.quick else (300, 80)
-    explore(ctx, n_nets, n_numba)
     if (not proved or ctx.brokens) and not ctx.violations:
         ctx.note("an obligation / correspondence broke: widening the monitor sweep")
         explore(ctx, 120, 6)
